@@ -127,7 +127,7 @@ class AddressInstruction(MichelsonInstruction, prim='ADDRESS'):
     def execute(cls, stack: MichelsonStack, stdout: List[str], context: AbstractContext):
         contract = cast(ContractType, stack.pop1())
         contract.assert_type_in(ContractType)
-        res = AddressType.from_value(contract.get_address())
+        res = AddressType.from_value(str(contract))  # the address keeps the entrypoint of the handle
         stack.push(res)
         stdout.append(format_stdout(cls.prim, [contract], [res]))  # type: ignore
         return cls(stack_items_added=1)
